@@ -131,6 +131,22 @@ def run():
                   {"a": "closeConn", "g": "main2", "wait": True, "ctxMs": 2000}]
         tscs.append({"id": "C20/cutInInterval/%s" % cut, "kind": "iscp", "conn": {"pingMs": [5000, 2000]}, "steps": steps,
                      "p": {"policy": pol, "thr": 10, "intervalMs": 1000, "seqMode": False}})
+    # the interval promise survives a resume: the connection is cut, the stream resumes, and what is written afterwards (below every
+    # size threshold, nobody calls Flush) still leaves within one interval (seed C20-7: ticker cached across flush-loop incarnations)
+    for pol, ms in (("interval", 60), ("intervalOrSize", 60)):
+        for k, ncut in enumerate((1, 2)):
+            steps = [{"a": "connect", "must": True},
+                     {"a": "openUp", "obj": "U1", "qos": "reliable", "policy": {"k": pol, "ms": ms, "size": THR * U.UNIT}, "must": True},
+                     {"a": "ackMode", "mode": "auto"},
+                     {"a": "write", "g": "S", "obj": "U1", "id": "A", "pts": [[1, 4]], "wait": True}, {"a": "sleep", "ms": 200}]
+            for c in range(ncut):
+                steps += [{"a": "cut"}, {"a": "await", "ev": "UpResumed", "ms": 4000, "must": True}, {"a": "sleep", "ms": 100},
+                          {"a": "write", "g": "S", "obj": "U1", "id": "AB"[c % 2], "pts": [[10 + c, 4]], "wait": True},
+                          {"a": "sleep", "ms": 500}, {"a": "state", "obj": "U1"}]
+            steps += [{"a": "closeUp", "g": "S", "obj": "U1", "wait": True, "ctxMs": 3000}, {"a": "quiesce"},
+                      {"a": "closeConn", "g": "main2", "wait": True, "ctxMs": 2000}]
+            tscs.append({"id": "C20/timedResume/%s/%d" % (pol, k), "kind": "iscp", "conn": {"pingMs": [100, 100], "dialDelayMs": 40}, "steps": steps,
+                         "p": {"policy": pol, "thr": THR * U.UNIT, "intervalMs": ms, "seqMode": False}})
     for sc in tscs:     # timed scenarios: scheduling stalls of a loaded machine are recorded and added to the interval bound
         sc["steps"] = [{"a": "stallWatch"}] + sc["steps"] + [{"a": "stallWatch", "mode": "off"}]
     ttrace = ctx.run_scenarios(tscs, "c20t", par=4)
